@@ -98,15 +98,25 @@ func observe(oc *fw.Outcome, e *Exec, count bool) (o obs, fs []finding, program 
 
 // runExec performs one execution and turns the observation into tags / violations.
 func runExec(oc *fw.Outcome, e *Exec, verbose bool) {
-	oc.Evals++
+	if e.Iso && os.Getenv("C08_CHILD") == "" && !verbose {
+		runIsolated(oc, e)
+		return
+	}
 	fam := e.Fam
 	t0 := time.Now()
 	o, fs, program, extra := observe(oc, e, true)
 	wall := time.Since(t0)
-	oc.Tag("fam/" + fam)
 	oc.Tag(fam + "/" + o.class)
-	if e.Tag != "" && reached(o.class) {
-		oc.Tag("x:" + e.Tag)
+	if reached(o.class) {
+		// an execution = a program that reached the interpreter / test runner (a lint-rejected or
+		// unparseable candidate is not a member of the family: counted in its tag only)
+		oc.Evals++
+		oc.Tag("fam/" + fam)
+		if e.Tag != "" {
+			oc.Tag("x:" + e.Tag)
+		}
+	} else {
+		oc.Tag("candidates-not-executed/" + fam)
 	}
 	if wall > time.Second {
 		// information only (never a verdict): executions that took more than a second
@@ -140,8 +150,6 @@ func runExec(oc *fw.Outcome, e *Exec, verbose bool) {
 		oc.Violate(f.prefix+con, f.what, d)
 	}
 	switch o.class {
-	case "tester-no-case":
-		oc.Inconc = append(oc.Inconc, "harness: tester produced no TestCase for "+e.Con)
 	case "harness-error":
 		oc.Inconc = append(oc.Inconc, "harness: "+e.Con+": "+o.msg)
 	case "parse-error":
@@ -278,15 +286,19 @@ func crashKey(c fw.Case, kind, stderr string) string {
 	}
 	switch {
 	case kind == "hung":
-		return "hang:" + frame + "/" + con
+		return "hang:" + con
 	case overflow:
 		return "fatal:stack overflow in " + frame + "/" + con
 	case strings.Contains(rest, "out of memory") || strings.Contains(rest, "cannot allocate memory"):
-		return "fatal:out of memory in " + frame + "/" + con
+		// the frame whose allocation happened to fail is arbitrary: the key names the construct only
+		return "fatal:out of memory/" + con
 	case strings.HasPrefix(rest, "fatal error: "):
 		msg := firstLine(rest[len("fatal error: "):])
 		return "fatal:" + msg + " in " + frame + "/" + con
 	case strings.Contains(rest, "panic: "):
+		if fn := builtinOfFrame(frame); fn != "" {
+			con = "fn:" + fn
+		}
 		return "panic:" + frame + "/" + con
 	}
 	return "died:unknown/" + con
@@ -312,14 +324,22 @@ func recursingFrame(dump string) string {
 		}
 		count[line]++
 	}
-	best := ""
+	max := 0
 	for _, f := range order {
-		if best == "" || count[f] > count[best] {
-			best = f
+		if count[f] > max {
+			max = count[f]
 		}
 	}
-	if count[best] < 3 {
+	if max < 3 {
 		return ""
+	}
+	// the members of a recursion cycle occur equally often (give or take the truncation of the dump):
+	// of those, the alphabetically first is the canonical name
+	best := ""
+	for _, f := range order {
+		if count[f]*5 >= max*4 && (best == "" || f < best) {
+			best = f
+		}
 	}
 	return best
 }
@@ -376,5 +396,11 @@ func finish(r *fw.Report) {
 	r.Extra["violation_keys_total"] = len(keys)
 	b, _ := json.MarshalIndent(rows, "", " ")
 	os.MkdirAll(filepath.Join(fw.Verif, ".build", "tmp"), 0o755)
+	// private tester directories of workers that died mid-execution
+	if left, _ := filepath.Glob(filepath.Join(fw.Verif, ".build", "tmp", "c08-tester-*")); len(left) > 0 {
+		for _, d := range left {
+			os.RemoveAll(d)
+		}
+	}
 	os.WriteFile(filepath.Join(fw.Verif, ".build", "tmp", fmt.Sprintf("C08-violations-%s-seed%d.json", r.Tier, r.Seed)), b, 0o644)
 }
